@@ -10,7 +10,7 @@ import re
 
 from ..mir import deep_strip, tstr, strip_generics, canon, subterms, is_call
 from .. import effects
-from ..checks import producer
+from ..checks import producer, error_passthrough
 from ..pat import P, K, V, C, F, AGG, OKP, BIN, CLO, TUP, FN, ANY, ALT, match, closure_ret, unref
 from . import c03, c07
 
@@ -72,7 +72,7 @@ def rule_exact_loops(ctx, prog, eff, rule="R14.2.exact_loop"):
                 if kinds:
                     z = any(r[0] == 'cmp' and r[1] == 'Eq' and r[3] == ('const', 0) and unref(r[2])[0] == 'ok' and producer(unref(r[2])) == S for r in facts)
                     zero_ok = kinds == [kind] and z
-                elif rd[0] == 'agg' and rd[2] == 'Err' and unref(rd[3][0]) == ('vfield', S, 'Err', 0):
+                elif error_passthrough(rd) == S:
                     pass_ok = True
             # loop guard: while !partial_buf.is_empty()
             guard_ok = any(r[0] == 'bool' and r[2] is False and match(C("VolatileSlice::is_empty", V("pb")), r[1], {"pb": bufarg}) for r in b.facts_at(cs[0].pos))
